@@ -373,4 +373,10 @@ def rule_r4(ctx):
     return rr
 
 
-RULES = [("C02-R1", rule_r1), ("C02-R2", rule_r2), ("C02-R3", rule_r3), ("C02-R4", rule_r4), ("C02-R5", rule_r5)]
+def _c06r8(ctx):
+    from .c06 import rule_r8
+
+    return rule_r8(ctx)
+
+
+RULES = [("C06-R8", _c06r8), ("C02-R1", rule_r1), ("C02-R2", rule_r2), ("C02-R3", rule_r3), ("C02-R4", rule_r4), ("C02-R5", rule_r5)]
